@@ -112,6 +112,8 @@ def render_arg(a):
         return "%s[%s]" % (a[1], render_idx(a[2]))
     if a[0] == "num":
         return fmt_num(a[1])
+    if a[0] == "raw":
+        return a[1]  # a literal written verbatim (used by fault injection only)
     raise ValueError(a)
 
 
